@@ -59,7 +59,14 @@ func (p *Pool) hungry() bool {
 
 func (p *Pool) countPath() { atomic.AddInt64(&p.paths, 1) }
 
+// AbortAll, once set, makes every exploration stop as if over budget (used when a
+// sibling harness has already found a violation and only the first one is wanted).
+var AbortAll atomic.Bool
+
 func (p *Pool) overBudget() string {
+	if AbortAll.Load() {
+		return "stopped: another harness of this check already found a violation (fail-fast mode)"
+	}
 	if p.lim.MaxPaths > 0 && atomic.LoadInt64(&p.paths) >= int64(p.lim.MaxPaths) {
 		return fmt.Sprintf("path budget %d exhausted before the path tree was covered", p.lim.MaxPaths)
 	}
